@@ -335,3 +335,133 @@ def run_code_guard(chk):
                        cname, short, ", ".join(sorted({str(fn.line_of(i)) for i in bad}))[:60]),
                    key="codeguard|%s::%s" % (cname, short))
     chk.floor(R + ":functions", n, 8)
+
+
+def run_dispatchers(chk):
+    """C14: the non-virtual BaseEmitter dispatchers that forward to the virtual _emit() either forward or fail like _emit() does"""
+    from .must import Must
+    R = "R-DISPATCH-FAILS-CLEAN"
+    chk.rule(R, "a BaseEmitter member function that forwards to the virtual _emit() (emit_op_array / _emitI ...) returns on every path either "
+                "the result of that _emit() call or an error that went through report_error() after reset_state(): a refusal by the dispatcher "
+                "itself is reported and clears the one-shot instruction state exactly like a refusal by the emitter")
+    f = chk.facts("asmjit/core/emitter.cpp", funcs=r"asmjit::BaseEmitter::[A-Za-z_0-9]+$")
+    n = nfn = 0
+    for fn in cfg.load_functions(f):
+        if not fn.file.endswith("emitter.cpp"):
+            continue
+        fwd = {i for i, x in fn.calls(lambda x: x.get("cn") == "_emit" and (x.get("callee") or "").startswith("asmjit::BaseEmitter::_emit"))}
+        if not fwd or fn.name.endswith("::_emit"):
+            continue
+        nfn += 1
+
+        def elem(eid, x):
+            if x["k"] in ("mcall", "call") and x.get("cn") == "reset_state":
+                return ((("reset",),), ())
+            return None
+        m = Must(fn, elem, None)
+        short = fn.name.replace("asmjit::", "")
+        for b, idx, r in fn.return_sites():
+            val = fn.e(r).get("val")
+            v = fn.e(fn.strip(val)) if val is not None else None
+            ok = False
+            why = "returns `%s`" % " ".join(fn.text(r).split())[:50]
+            if v is not None and fn.strip(val) in fwd:
+                ok = True
+            elif v is not None and v["k"] in ("mcall", "call") and v.get("cn") == "report_error":
+                ok = ("reset",) in (m.before(r) or frozenset())
+                why += " without reset_state() before it"
+            n += 1
+            chk.ob(R, "%s/%d|return@%d" % (short, len(fn.params), fn.line_of(r) - fn.line), ok, loc=fn.loc(r),
+                   detail="%s %s: the error handler is not told and / or the pending options, extra register and inline comment stay armed for the "
+                          "next instruction" % (short, why), key="dispatch|%s" % short)
+    chk.floor(R + ":functions", nfn, 8)
+    chk.floor(R + ":returns", n, 14)
+
+
+LABEL_CREATORS = ("new_label_node", "register_label_node", "new_label", "new_named_label", "new_anonymous_label", "new_label_id",
+                  "new_named_label_id", "new_label_entry", "new_named_label_entry")
+
+
+def run_label_after_validation(chk):
+    """C14 "a failed call creates no labels": in the Builder / Compiler API a label is registered only after the arguments were validated"""
+    from .cfg import forward
+    R = "R-NO-LABEL-BEFORE-VALIDATION"
+    chk.rule(R, "in the BaseBuilder / BaseCompiler API functions no path registers a label in the CodeHolder (new_label_node / "
+                "register_label_node / new_label ...) and afterwards returns `report_error(<a status obtained from validating the "
+                "arguments>)`: everything that can refuse the arguments runs before the first registration, so a refused call leaves no "
+                "label behind (running out of memory after the registration - report_error(make_error(kOutOfMemory)) or a propagated "
+                "allocation failure - is not an argument error and is exempt)")
+    n = nfn = 0
+    for u, c in (("asmjit/core/builder.cpp", "BaseBuilder"), ("asmjit/core/compiler.cpp", "BaseCompiler")):
+        f = chk.facts(u, funcs=r"asmjit::%s::[A-Za-z_0-9]+$" % c)
+        for fn in cfg.load_functions(f):
+            if not fn.file.endswith(u.split("/")[-1]) or "Error" not in (fn.raw.get("ret") or ""):
+                continue
+            creators = {i for i, x in fn.calls(lambda x: x.get("cn") in LABEL_CREATORS)}
+            if not creators:
+                continue
+            nfn += 1
+
+            # definitions of Error locals: element id -> (did, rhs)
+            defs = {}
+            for i, x in fn.ex.items():
+                if x["k"] == "decl":
+                    for v_ in x["vars"]:
+                        if v_.get("init") and "Error" in v_.get("ty", ""):
+                            defs[i] = (v_["did"], v_["init"])
+                elif x["k"] == "binop" and x["op"] == "=":
+                    l = fn.e(fn.strip(x["lhs"]))
+                    if l and l["k"] == "ref" and "did" in l and "Error" in l.get("ty", ""):
+                        defs[i] = (l["did"], x["rhs"])
+            parms = {p_["did"] for p_ in fn.params if p_["name"] != "out"}
+
+            def step(el, st, fn=fn, creators=creators, defs=defs):
+                cr, ds = st
+                if el in creators:
+                    cr = max(cr, el)
+                if el in defs:
+                    d = defs[el][0]
+                    ds = frozenset(t for t in ds if t[0] != d) | {(d, el)}
+                return (cr, ds)
+
+            def transfer(b, st, fn=fn):
+                for el in fn.blocks[b]["elems"]:
+                    if isinstance(el, int):
+                        st = step(el, st)
+                return st
+            IN, OUT = forward(fn, (0, frozenset()), transfer, lambda ss: (max(s_[0] for s_ in ss), frozenset().union(*[s_[1] for s_ in ss])))
+            for b, idx, r in fn.return_sites():
+                val = fn.e(r).get("val")
+                v = fn.e(fn.strip(val)) if val is not None else None
+                if v is None or v["k"] not in ("mcall", "call") or v.get("cn") != "report_error" or not v.get("args"):
+                    continue
+                a = fn.e(fn.strip(v["args"][0]))
+                if a is not None and a["k"] in ("call", "mcall") and a.get("cn") == "make_error" and "kOutOfMemory" in fn.text(v["args"][0]):
+                    continue
+                st = IN.get(b, (0, frozenset()))
+                for el in fn.blocks[b]["elems"][:idx]:
+                    if isinstance(el, int):
+                        st = step(el, st)
+                st, ds = st
+                # the refusal judges the *arguments* when the reported status comes from a call that was handed one of the function's
+                # parameters (a status of the registering call itself, or of growing a container, is not an argument error)
+                validating = False
+                if a is not None and a["k"] == "ref" and "did" in a:
+                    for d, el in ds:
+                        if d != a["did"] or el in creators or fn.strip(defs[el][1]) in creators:
+                            continue
+                        rhs = defs[el][1]
+                        if any((fn.e(j) or {}).get("k") == "ref" and (fn.e(j) or {}).get("did") in parms for j in fn.walk(rhs)):
+                            validating = True
+                elif a is not None and a["k"] in ("call", "mcall") and a.get("cn") == "make_error":
+                    validating = True
+                if not validating:
+                    continue
+                n += 1
+                chk.ob(R, "%s|return@%d" % (fn.name.replace("asmjit::", ""), fn.line_of(r) - fn.line), not st, loc=fn.loc(r),
+                       detail="`%s` refuses the call after `%s` (line %d) already registered a label in the CodeHolder: the failed call leaves a "
+                              "label (and an orphan node) behind and shifts every later label id" %
+                              (" ".join(fn.text(r).split())[:50], " ".join(fn.text(st).split())[:50] if st else "", fn.line_of(st) if st else 0),
+                       key="labelbeforevalid|%s" % fn.name.replace("asmjit::", ""))
+    chk.floor(R + ":functions", nfn, 4)
+    chk.floor(R + ":returns", n, 1)
